@@ -3,6 +3,8 @@
 
 package sm2
 
+import "math/big"
+
 // Hooks for the verification harness (build tag "verif" only).
 
 // VerifWNaf exposes the windowed-NAF recoding used by ScalarMult (most significant digit first).
@@ -10,3 +12,6 @@ func VerifWNaf(k []byte) []int8 {
 	P256Sm2() // the recoding reads the group order from the lazily initialised curve
 	return WNafReversed(sm2GenrateWNaf(k))
 }
+
+// VerifKeXHat exposes keXHat, the x-bar = 2^127 + (x mod 2^127) helper of the key exchange.
+func VerifKeXHat(x *big.Int) *big.Int { return keXHat(new(big.Int).Set(x)) }
